@@ -224,15 +224,15 @@ static bool body_merkle(const Case &c, Ctx &ctx)
     // reference
     std::vector<uint64_t> leaves(rows * 4);
     for (uint64_t r = 0; r < rows; r++) {
-        if (!is_batch(variant)) refp::linear_hash(&leaves[4 * r], &x[r * rowlen], rowlen);
+        if (!is_batch(variant)) refp::linear_hash(leaves.data() + 4 * r, x.data() + r * rowlen, rowlen);
         else {
             uint64_t nb = cols ? (cols + batch - 1) / batch : 1;
             std::vector<uint64_t> dig(nb * 4);
             for (uint64_t j = 0; j < nb; j++) {
                 uint64_t nn = (j == nb - 1) ? cols - (nb - 1) * batch : batch;
-                refp::linear_hash(&dig[4 * j], x.data() + r * rowlen + j * batch * dim, nn * dim);
+                refp::linear_hash(dig.data() + 4 * j, x.data() + r * rowlen + j * batch * dim, nn * dim);
             }
-            refp::linear_hash(&leaves[4 * r], dig.data(), nb * 4);
+            refp::linear_hash(leaves.data() + 4 * r, dig.data(), nb * 4);
         }
     }
     std::vector<uint64_t> want = refp::merkle(leaves, rows);
